@@ -114,6 +114,7 @@ def run(ctx):
                 "multiline, kind of judgement)")
     vh = VH(vh_bin(), locklog=os.path.join(ctx.scratch_root, "lock_vh.log"))
     try:
+        pinned(ctx, vh)
         for i in range(n):
             root = ctx.scratch(f"c{i}")
             ws = gen_chain(root, ctx.rng)
@@ -356,3 +357,19 @@ def _resolves_to(ws, model, order, key, target):
             exp = expected_target(res)
             return exp is not None and target in exp
     return False
+
+
+def pinned(ctx, vh):
+    from ..witness import WITNESS, ws_from_witness
+    for kf_id in (KF_MULTILINE, KF_IMPORT):
+        w = WITNESS[kf_id]
+        ws = ws_from_witness(ctx, w)
+        model = ws.model()
+        db = vh.new_db()
+        vh.call(op="batch", cmds=[{"op": "analyze_fresh", "db": db, "path": ws.abs(r), "text": ws.files[r]} for r in w["order"]])
+        order = def_index(vh.call(op="raw", db=db))
+        judge_workspace(ctx, ws, model, order, "vh",
+                        goto=lambda f, l, c: _vh_goto(vh, db, f, l, c),
+                        refs=lambda f, l, n_: _vh_refs(vh, db, f, l, n_))
+        vh.call(op="drop_db", db=db)
+        shutil.rmtree(ws.root, ignore_errors=True)
